@@ -1205,7 +1205,13 @@ impl World {
                 self.next_read += 1;
                 self.ghost.reads.insert(c, (id, self.ghost.max_commit_ever));
                 // (-samectx: the first two requests share their context bytes, later ones are unique)
-                let bytes = if self.scen.same_read_ctx && self.ghost.reads.len() <= 2 { vec![0xaa] } else { c.to_le_bytes().to_vec() };
+                let bytes = if self.scen.same_read_ctx && self.ghost.reads.len() <= 2 {
+                    vec![0xaa]
+                } else if self.scen.empty_first_ctx && c == 1 {
+                    vec![]
+                } else {
+                    c.to_le_bytes().to_vec()
+                };
                 let r = self.call(i, CallKind::ReadIndex, ctx, |rn| rn.read_index(bytes));
                 r.is_some()
             }
